@@ -208,6 +208,11 @@ func c09Scenario(rep *vk.Report, idx int, prop string) {
 		hb.CancelOnResult(7)
 	}
 	H := hb.Build()
+	if r.IntN(2) == 0 {
+		// a policy is fixed when it is built: configuring the builder further (for another policy) must not change it
+		hb.WithMaxHedges(cs.MaxHedges + 3).OnHedge(func(failsafe.ExecutionEvent[int]) {})
+		_ = hb.Build()
+	}
 	probe := &probePolicy{
 		before: func(failsafe.Execution[int]) any { return time.Now() },
 		after: func(_ failsafe.Execution[int], tok any, pr *common.PolicyResult[int]) {
